@@ -127,3 +127,142 @@ def unit_greens_function(timeout_ms=20000):
             eng.oblige("residual-is-that-of-the-returned-solution", z3.BoolVal(term_eq_py(arg, want)), detail=f"norm of {arg!r}; returned {res!r}"[:400])
             eng.oblige("returned-solution-meets-the-requested-accuracy", r <= atol, detail="|| (H sol - E sol) + v || <= atol on return without warning")
     return run_unit("kpm:greens_function[loop exit]", harness, functions=[(MODULE, "greens_function")], timeout_ms=timeout_ms)
+
+
+# ------------------------------------------------------------------------------------------------
+def unit_solve_sylvester_KPM(nsub, with_aux, timeout_ms=20000):
+    """block_diagonalization.solve_sylvester_KPM: how the KPM solver is assembled.
+      * the complement projector used in front of the KPM Green's function removes ALL explicitly known vectors: the explicit subspaces
+        and the auxiliary vectors (whose contribution is added back exactly by the explicit energy-denominator term);
+      * energies of every explicit set are the diagonal of V^dagger h_0 V; the Hamiltonian is rescaled with the bounds of the explicit
+        energies (auxiliary ones excluded) and the explicit energies are rescaled with the same (a, b);
+      * row k of (Y @ P) / a is solved at the rescaled k-th energy of block index[0] with the requested atol / max_moments;
+      * the KPM part is used exactly for the implicit column block and is added to the explicit part; zero stays zero."""
+    fn = frontend.find("block_diagonalization", "solve_sylvester_KPM")
+
+    def harness(eng):
+        h0 = T("h_0")
+        vecs = [T(f"V{k}") for k in range(nsub)]
+        aux = T("aux_vectors")
+        opts = {"atol": T("opt_atol"), "max_moments": T("opt_max_moments"), "eps": T("opt_eps")}
+        if with_aux:
+            opts["auxiliary_vectors"] = aux
+        made = {}
+        T_getattr = T.m_getattr
+
+        def patched(self, e, name):
+            if name == "diagonal":
+                return Builtin("diagonal", lambda e2: T("diagonal-of", self))
+            if name == "shape":
+                return STup([T("rows", self), T("cols", self)])
+            if name == "tocsr":
+                return Builtin("tocsr", lambda e2: T("tocsr", self))
+            return T_getattr(self, e, name)
+        zero_aux = T("np.zeros((n,0))")
+
+        def projector(e, v, *a):
+            made["projector_arg"] = (v, a)
+            return T("ComplementProjector", v)
+
+        def rescale(e, h, eps=None, lower_bounds=None, bounds=None):
+            made["rescale"] = (h, eps, lower_bounds, bounds)
+            return STup([T("h_rescaled"), STup([T("a"), T("b")])])
+
+        def ssd(e, eigs, vecs_implicit=None, atol=None):
+            made["explicit"] = (eigs, vecs_implicit, atol)
+            return Builtin("explicit_solver", lambda e2, Y, index: T("explicit", Y, *e2.as_seq(index).items[:2]))
+
+        class ZipFam(Model):
+            def __init__(s, a, b):
+                s.a, s.b = a, b
+
+            def m_comprehension(s, e, ce, g, env):
+                cenv = Env(env)
+                cenv.is_comprehension = True
+                e.assign(g.target, STup([T("item", s.a, T("k")), T("item", s.b, T("k"))]), cenv)
+                return T("family", e.eval(ce.elt, cenv))
+        gf_calls = []
+
+        def gf(e, h, energy, vector, atol=None, max_moments=None):
+            gf_calls.append((h, energy, vector, atol, max_moments))
+            return T("kpm_solution", energy, vector)
+        from pyvc.models import ZERO
+        eng.globals.update({
+            "np": Namespace("np", {"zeros": Builtin("zeros", lambda e, shape, **k: zero_aux), "hstack": Builtin("hstack", lambda e, seq: T("hstack", *e.as_seq(seq).items)),
+                                   "min": Builtin("min", lambda e, x: T("min", x)), "max": Builtin("max", lambda e, x: T("max", x)),
+                                   "concatenate": Builtin("concatenate", lambda e, seq: T("concatenate", *e.as_seq(seq).items)),
+                                   "vstack": Builtin("vstack", lambda e, f: T("vstack", f))}),
+            "Dagger": Builtin("Dagger", lambda e, x: T("Dagger", x)), "ComplementProjector": Builtin("ComplementProjector", projector),
+            "rescale": Builtin("rescale", rescale), "sparse": Namespace("sparse", {"issparse": Builtin("issparse", lambda e, x: True)}),
+            "solve_sylvester_diagonal": Builtin("solve_sylvester_diagonal", ssd), "greens_function": Builtin("greens_function", gf),
+            "zip": Builtin("zip", lambda e, a, b: ZipFam(a, b)), "zero": ZERO,
+        })
+        T.m_getattr = patched
+        T_getitem = getattr(T, "m_getitem", None)
+        T.m_getitem = lambda self, e, key: T("item", self, key)
+        try:
+            solver = eng.call(Closure(fn, Env(None, {}), "solve_sylvester_KPM"), [h0, STup(list(vecs))], {"solver_options": opts})
+            all_vecs = vecs + [aux if with_aux else zero_aux]
+            # --- set-up
+            pa = made.get("projector_arg")
+            def is_all(v):
+                # without auxiliary vectors the empty (n, 0) array may or may not be stacked: the matrix is the same
+                return term_eq_py(v, T("hstack", *all_vecs)) or (not with_aux and term_eq_py(v, T("hstack", *vecs)))
+            eng.oblige("projector-removes-all-explicitly-known-vectors-incl-auxiliary", z3.BoolVal(pa is not None and not pa[1] and is_all(pa[0])),
+                       detail=f"ComplementProjector argument: {pa!r}"[:300])
+            ex = made.get("explicit")
+            okx = ex is not None
+            eng.oblige("explicit-part-is-the-diagonal-solver", z3.BoolVal(okx))
+            if okx:
+                eigs, vimp, atol_x = ex
+                es = eng.as_seq(eigs).items
+                want = [T("diagonal-of", T("MatMult", T("MatMult", T("Dagger", V), h0), V)) for V in all_vecs]
+                eng.oblige("energies-are-diag(V^dagger-h_0-V)-for-every-set-of-known-vectors", z3.BoolVal(len(es) == len(want) and all(term_eq_py(a, b) for a, b in zip(es, want))), detail=repr(es)[:300])
+                eng.oblige("auxiliary-vectors-are-the-implicit-basis-of-the-explicit-part", z3.BoolVal(vimp is all_vecs[-1]))
+                eng.oblige("explicit-part-uses-the-requested-atol", z3.BoolVal(atol_x is opts["atol"]))
+            rs = made.get("rescale")
+            okr = rs is not None and rs[0] is h0 and rs[1] is opts["eps"] and rs[3] is None
+            eng.oblige("hamiltonian-rescaled-with-requested-eps", z3.BoolVal(okr))
+            if okr:
+                lb = eng.as_seq(rs[2]).items
+                expl = [T("diagonal-of", T("MatMult", T("MatMult", T("Dagger", V), h0), V)) for V in vecs]
+                wantlb = [T("min", T("concatenate", *expl)), T("max", T("concatenate", *expl))]
+                eng.oblige("rescaling-bounds-cover-the-explicit-energies-only", z3.BoolVal(len(lb) == 2 and all(term_eq_py(a, b) for a, b in zip(lb, wantlb))), detail=repr(lb)[:300])
+            # --- the returned solver
+            i = eng.fresh("i")
+            j = eng.fresh("j")
+            eng.assume(z3.And(i >= 0, i < nsub, j >= 0, j <= nsub))
+            ii = next(k for k in range(nsub) if k == nsub - 1 or eng.branch(i == k))
+            jj = next(k for k in range(nsub + 1) if k == nsub or eng.branch(j == k))
+            Y = T("Y")
+            r0 = eng.call(solver, [ZERO, STup([ii, jj, 1])], {})
+            eng.oblige("zero-rhs-gives-zero", z3.BoolVal(r0 is ZERO))
+            gf_calls.clear()
+            r = eng.call(solver, [Y, STup([ii, jj, 1])], {})
+            if jj != nsub:
+                eng.oblige("explicit-pair-uses-only-the-explicit-part", z3.BoolVal(term_eq_py(r, T("explicit", Y, ii, jj)) and not gf_calls), detail=repr(r)[:200])
+                return
+            okk = isinstance(r, T) and r.head == "Add" and term_eq_py(r.args[1], T("explicit", Y, ii, jj)) and isinstance(r.args[0], T) and r.args[0].head == "vstack"
+            eng.oblige("implicit-column:KPM-part-plus-explicit-part", z3.BoolVal(okk), detail=repr(r)[:300])
+            ok1 = len(gf_calls) == 1
+            eng.oblige("implicit-column:rows-solved-by-the-KPM-greens-function", z3.BoolVal(ok1))
+            if ok1:
+                h, energy, vector, at, mm = gf_calls[0]
+                eng.oblige("kpm:transposed-rescaled-hamiltonian", z3.BoolVal(term_eq_py(h, T("tocsr", T("attr:T", T("h_rescaled"))))), detail=repr(h))
+                e_want = T("item", T("Div", T("Sub", T("diagonal-of", T("MatMult", T("MatMult", T("Dagger", vecs[ii]), h0), vecs[ii])), T("b")), T("a")), T("k"))
+                eng.oblige("kpm:k-th-row-solved-at-the-k-th-rescaled-energy-of-the-row-block", z3.BoolVal(term_eq_py(energy, e_want)), detail=repr(energy)[:300])
+                okv = isinstance(vector, T) and vector.head == "item" and term_eq_py(vector.args[1], T("k")) and isinstance(vector.args[0], T) and vector.args[0].head == "Div" \
+                    and term_eq_py(vector.args[0].args[1], T("a")) and isinstance(vector.args[0].args[0], T) and vector.args[0].args[0].head == "MatMult" \
+                    and vector.args[0].args[0].args[0] is Y and isinstance(vector.args[0].args[0].args[1], T) and vector.args[0].args[0].args[1].head == "ComplementProjector" \
+                    and is_all(vector.args[0].args[0].args[1].args[0])
+                eng.oblige("kpm:rows-of-(Y-P)/a-with-the-projector-over-all-known-vectors", z3.BoolVal(okv), detail=repr(vector)[:300])
+                eng.oblige("kpm:requested-accuracy-and-moment-budget-forwarded", z3.BoolVal(at is opts["atol"] and mm is opts["max_moments"]))
+        finally:
+            T.m_getattr = T_getattr
+            if T_getitem is None:
+                del T.m_getitem
+            else:
+                T.m_getitem = T_getitem
+    return run_unit(f"block_diagonalization:solve_sylvester_KPM[{nsub} explicit subspaces{',auxiliary vectors' if with_aux else ''}]", harness,
+                    functions=[("block_diagonalization", "solve_sylvester_KPM"), ("block_diagonalization", "solve_sylvester_KPM/solve_sylvester"),
+                               ("block_diagonalization", "solve_sylvester_KPM/solve_sylvester_kpm")], timeout_ms=timeout_ms)
